@@ -122,9 +122,25 @@ theorem sum_filter_single (ps : List Nat) (f : Nat → I32) (keep : Nat → Bool
       rw [List.filter_cons_of_neg (by simp [hk'])] at hf
       rw [hz p hk', ih hf]; simp
 
+/-- kind-level emission bound (proof helper) -/
+def Kind.mayEmitB (k : Kind) (s : Sig) : Bool :=
+  match k.emitList with
+  | some l => l.contains s
+  | none => true
+
+theorem mayEmit_false (c : Circuit) (p : Nat) (s : Sig) (h : c.mayEmit p s = false) :
+    c.sources.contains p = false ∧ (c.kind p).mayEmitB s = false := by
+  unfold Circuit.mayEmit Circuit.emitListOf at h
+  cases hs : c.sources.contains p with
+  | true => rw [hs] at h; simp at h
+  | false =>
+    refine ⟨rfl, ?_⟩
+    rw [hs] at h
+    exact h
+
 /-- `E` is a state in which every entity emits only what its kind allows -/
 def EmitsOK (c : Circuit) (E : Nat → SigMap) : Prop :=
-  ∀ p s, (c.kind p).mayEmitB s = false → get (E p) s = 0
+  ∀ p s, c.mayEmit p s = false → get (E p) s = 0
 
 theorem selIn_eq_sumOuts (c : Circuit) (E : Nat → SigMap) (i : Nat) (sel : Sel) :
     selIn sel (c.readR E i) (c.readG E i) = Circuit.sumOuts (c.selProducers i sel) E := by
@@ -136,13 +152,16 @@ theorem read_isolated (c : Circuit) (E : Nat → SigMap) (hE : EmitsOK c E) (i :
     get (selIn sel (c.readR E i) (c.readG E i)) s = get (E e) s := by
   rw [selIn_eq_sumOuts, get_sumOuts]
   unfold Circuit.isolated at h
-  exact sum_filter_single _ (fun p => get (E p) s) (fun p => (c.kind p).mayEmitB s) e (fun p hp => hE p s hp) (eq_of_beq h)
+  exact sum_filter_single _ (fun p => get (E p) s) (fun p => c.mayEmit p s) e (fun p hp => hE p s hp) (eq_of_beq h)
 
 /-! ## static emission bounds hold in every fixpoint -/
 
-/-- an overridden entity is a single-signal constant combinator and keeps its signal -/
+/-- an overridden entity is a single-signal constant combinator that keeps its signal, or a declared source
+(a circuit-connected container: any contents) -/
 def InputsOK (c : Circuit) (inp : Inputs) : Prop :=
-  ∀ i m, inp i = some m → ∃ t v lit, c.kind i = .const [(t, lit)] ∧ m = [(t, v)]
+  ∀ i m, inp i = some m →
+    (c.sources.contains i = true ∧ ∃ cd, c.kind i = .controlled cd) ∨
+    (∃ t v lit, c.kind i = .const [(t, lit)] ∧ m = [(t, v)])
 
 theorem contains_false_not_mem (l : List Sig) (s : Sig) (h : l.contains s = false) : s ∉ l := by
   intro hm
@@ -171,11 +190,13 @@ theorem get_outs_zero (outs : List DOut) (r g : SigMap) (s : Sig)
     | everything => simp [hsig] at hall
 
 theorem emits_evalEnt (c : Circuit) (inp : Inputs) (hinp : InputsOK c inp) (E : Nat → SigMap) (p : Nat) (s : Sig)
-    (h : (c.kind p).mayEmitB s = false) : get (c.evalEnt inp E p) s = 0 := by
+    (h : c.mayEmit p s = false) : get (c.evalEnt inp E p) s = 0 := by
+  obtain ⟨hsrc, h⟩ := mayEmit_false c p s h
   unfold Circuit.evalEnt
   cases hi : inp p with
   | some m =>
-    obtain ⟨t, v, lit, hk, hm⟩ := hinp p m hi
+    rcases hinp p m hi with ⟨hs, _⟩ | ⟨t, v, lit, hk, hm⟩
+    · rw [hsrc] at hs; cases hs
     subst hm
     simp only [Kind.mayEmitB, hk, Kind.emitList, List.map_cons, List.map_nil] at h
     have : ¬ t = s := by intro e; subst e; simp at h
@@ -251,13 +272,16 @@ def Holds (E : Nat → SigMap) (nodes : Array CNode) (env : Env) (bind : Nat →
   | some (.many es) => ∀ s, get (Circuit.sumOuts es E) s = get ((evalNodes nodes env).getD n []) s
   | none => True
 
-/-- the two valuations agree: the constant combinator bound to an input node carries that input's value,
-and nothing else is overridden -/
+/-- the two valuations agree: the constant combinator bound to an input node carries that input's value, the
+container bound to an `entity.output` node reports that entity's contents, and nothing else is overridden -/
 def InputsAgree (nodes : Array CNode) (bind : Nat → Option Bind) (inp : Inputs) (env : Env) : Prop :=
   (∀ n name ty v e s, nodes[n]? = some (.input name ty v) → bind n = some (.ent e s) →
       inp e = some [(s, (env.input name).getD v)]) ∧
   (∀ n e s, bind n = some (.ent e s) → (∀ name ty v, nodes[n]? ≠ some (.input name ty v)) → inp e = none) ∧
-  (∀ e, inp e ≠ none → ∃ n name ty v s, n < nodes.size ∧ nodes[n]? = some (.input name ty v) ∧ bind n = some (.ent e s))
+  (∀ e, inp e ≠ none →
+      (∃ n name ty v s, n < nodes.size ∧ nodes[n]? = some (.input name ty v) ∧ bind n = some (.ent e s)) ∨
+      (∃ n k, n < nodes.size ∧ nodes[n]? = some (.entOut k) ∧ bind n = some (.many [e]))) ∧
+  (∀ n k e, nodes[n]? = some (.entOut k) → bind n = some (.many [e]) → inp e = some (env.entOut k))
 
 theorem kind_getD (nodes : Array CNode) (n : Nat) (nd : CNode) (h : nodes[n]? = some nd) :
     ∃ hn : n < nodes.size, nodes[n] = nd := by
@@ -305,27 +329,32 @@ theorem inp_none_of_arith (x : Ctx) (e : Nat) (cfg : ArithCfg) (hk : x.c.kind e 
   cases h : x.inp e with
   | none => rfl
   | some m =>
-    obtain ⟨t, v, lit, hk', _⟩ := x.hinp e m h
-    rw [hk] at hk'; cases hk'
+    rcases x.hinp e m h with ⟨_, cd, hk'⟩ | ⟨t, v, lit, hk', _⟩
+    · rw [hk] at hk'; cases hk'
+    · rw [hk] at hk'; cases hk'
 
 theorem inp_none_of_decider (x : Ctx) (e : Nat) (cfg : DeciderCfg) (hk : x.c.kind e = .decider cfg) : x.inp e = none := by
   cases h : x.inp e with
   | none => rfl
   | some m =>
-    obtain ⟨t, v, lit, hk', _⟩ := x.hinp e m h
-    rw [hk] at hk'; cases hk'
+    rcases x.hinp e m h with ⟨_, cd, hk'⟩ | ⟨t, v, lit, hk', _⟩
+    · rw [hk] at hk'; cases hk'
+    · rw [hk] at hk'; cases hk'
 
 theorem inp_none_of_notInput (x : Ctx) (p : Nat) (h : notInputEnt x.nodes x.bind p = true) : x.inp p = none := by
   cases hi : x.inp p with
   | none => rfl
-  | some m =>
+  | some m' =>
     exfalso
-    obtain ⟨n, name, ty, v, s, hn, hnode, hb⟩ := x.hagree.2.2 p (by rw [hi]; simp)
     unfold notInputEnt at h
     rw [List.all_eq_true] at h
-    have := h n (List.mem_range.mpr hn)
-    rw [hnode, hb] at this
-    simp at this
+    rcases x.hagree.2.2.1 p (by rw [hi]; simp) with ⟨n, name, ty, v, s, hn, hnode, hb⟩ | ⟨n, k, hn, hnode, hb⟩
+    · have := h n (List.mem_range.mpr hn)
+      rw [hnode, hb] at this
+      simp at this
+    · have := h n (List.mem_range.mpr hn)
+      rw [hnode, hb] at this
+      simp at this
 
 end Ctx
 
@@ -376,11 +405,11 @@ theorem get_sumOuts_filter (E : Nat → SigMap) (s : Sig) (keep : Nat → Bool) 
       simp
 
 theorem silent_zero (c : Circuit) (E : Nat → SigMap) (hE : EmitsOK c E) (p : Nat) (s : Sig)
-    (h : (!(c.kind p).silent) = false) : get (E p) s = 0 := by
+    (h : (!c.silentEnt p) = false) : get (E p) s = 0 := by
   apply hE
-  have hs : (c.kind p).silent = true := by simpa using h
-  unfold Kind.silent at hs
-  unfold Kind.mayEmitB
+  have hs : c.silentEnt p = true := by simpa using h
+  unfold Circuit.silentEnt at hs
+  unfold Circuit.mayEmit
   split at hs
   · rename_i heq
     rw [heq]
@@ -394,8 +423,8 @@ theorem carries_sound (c : Circuit) (E : Nat → SigMap) (hE : EmitsOK c E) (i :
   unfold Circuit.carries at h
   have hp := List.isPerm_iff.mp h
   rw [selIn_eq_sumOuts,
-    ← get_sumOuts_filter E s (fun p => !(c.kind p).silent) (c.selProducers i sel) (fun p hp => silent_zero c E hE p s hp),
-    ← get_sumOuts_filter E s (fun p => !(c.kind p).silent) es (fun p hp => silent_zero c E hE p s hp)]
+    ← get_sumOuts_filter E s (fun p => !c.silentEnt p) (c.selProducers i sel) (fun p hp => silent_zero c E hE p s hp),
+    ← get_sumOuts_filter E s (fun p => !c.silentEnt p) es (fun p hp => silent_zero c E hE p s hp)]
   exact get_sumOuts_perm E s hp
 
 theorem readsSum_sound (c : Circuit) (E : Nat → SigMap) (hE : EmitsOK c E) (i : Nat) (sel : Sel) (s : Sig) (es : List Nat)
@@ -404,8 +433,8 @@ theorem readsSum_sound (c : Circuit) (E : Nat → SigMap) (hE : EmitsOK c E) (i 
   unfold Circuit.readsSum at h
   have hp := List.isPerm_iff.mp h
   rw [selIn_eq_sumOuts,
-    ← get_sumOuts_filter E s (fun p => (c.kind p).mayEmitB s) (c.selProducers i sel) (fun p hp => hE p s hp),
-    ← get_sumOuts_filter E s (fun p => (c.kind p).mayEmitB s) es (fun p hp => hE p s hp)]
+    ← get_sumOuts_filter E s (fun p => c.mayEmit p s) (c.selProducers i sel) (fun p hp => hE p s hp),
+    ← get_sumOuts_filter E s (fun p => c.mayEmit p s) es (fun p hp => hE p s hp)]
   exact get_sumOuts_perm E s hp
 
 theorem get_sumOuts_single (E : Nat → SigMap) (e : Nat) (s : Sig) : get (Circuit.sumOuts [e] E) s = get (E e) s := by
@@ -1481,7 +1510,7 @@ theorem partEnts_sound (x : Ctx) (n p : Nat) (hp : p < n) (hn : n ≤ x.nodes.si
       · cases h
     | ent e s0 =>
       simp only [hnd] at h
-      by_cases hc : (x.nodes[p].ty? == some s0 && (x.c.kind e).emitsOnly s0) = true
+      by_cases hc : (x.nodes[p].ty? == some s0 && x.c.emitsOnly e s0) = true
       · rw [if_pos hc] at h
         injection h with h
         subst h
@@ -1499,9 +1528,9 @@ theorem partEnts_sound (x : Ctx) (n p : Nat) (hp : p < n) (hn : n ≤ x.nodes.si
           rw [if_pos rfl, hh, hnv]
         · rw [if_neg hs]
           apply x.emits
-          unfold Kind.emitsOnly at hemit
-          unfold Kind.mayEmitB
-          cases hl : (x.c.kind e).emitList with
+          unfold Circuit.emitsOnly at hemit
+          unfold Circuit.mayEmit
+          cases hl : x.c.emitListOf e with
           | none => rw [hl] at hemit; simp at hemit
           | some l =>
             rw [hl] at hemit
@@ -1761,6 +1790,18 @@ theorem checkMany_sound (x : Ctx) (n : Nat) (hn : n < x.nodes.size) (es : List N
         | _ => simp [hbb] at hm
     | [], hm => simp at hm
     | _ :: _ :: _, hm => simp at hm
+  | entOut k =>
+    rw [hk] at h
+    match es, h with
+    | [e], _ =>
+      have hnode : x.nodes[n]? = some (.entOut k) := by rw [Array.getElem?_eq_getElem hn, hk]
+      have hov := x.hagree.2.2.2 n k e hnode hbind
+      have hE : x.E e = x.env.entOut k := by
+        rw [← x.hfix e]; unfold Circuit.evalEnt; rw [hov]
+      rw [get_sumOuts_single, hE]
+      simp [evalNode]
+    | [], h => simp at h
+    | _ :: _ :: _, h => simp at h
   | bgate op a k b =>
     rw [hk] at h
     simp only [Bool.and_eq_true, decide_eq_true_eq] at h
@@ -1988,6 +2029,163 @@ theorem wiresum_end_to_end (c : Circuit) (nodes : Array CNode) (bind : Nat → O
   have hb' : x.bind n = some (.sum es s) := hb
   rw [hb'] at this
   exact this
+
+/-! ## circuit conditions of placed entities (C06) -/
+
+theorem quantCond_sound (x : Ctx) (n : Nat) (hn : n ≤ x.nodes.size)
+    (ih : ∀ m, m < n → Holds x.E x.nodes x.env x.bind m)
+    (isAny : Bool) (b : Nat) (op : CmpOp) (rhs : Arg) (e : Nat) (cd : Cond)
+    (h : quantCondOK x.c x.nodes x.bind n isAny b op rhs e cd = true) :
+    b < n ∧ argBelow n rhs = true ∧
+    cd.eval (x.c.readR x.E e) (x.c.readG x.E e) none =
+      quantVal isAny ((evalNodes x.nodes x.env).getD b []) op (x.av rhs) := by
+  unfold quantCondOK at h
+  simp only [Bool.and_eq_true, decide_eq_true_eq, beq_iff_eq] at h
+  obtain ⟨⟨⟨⟨⟨hb, hrhs⟩, hfirst⟩, hop⟩, hplain⟩, hmo⟩ := h
+  refine ⟨hb, hrhs, ?_⟩
+  have hhb := ih b hb
+  unfold Holds at hhb
+  have hsec := matchOperand_sound x e cd.second rhs n hrhs ih hmo
+  cases hbb : x.bind b with
+  | none => simp [hbb] at hfirst
+  | some bb =>
+    cases bb with
+    | many eb =>
+      rw [hbb] at hhb
+      simp only [hbb] at hfirst
+      cases hf : cd.first with
+      | const v => rw [hf] at hfirst; simp at hfirst
+      | ref rf sel =>
+        rw [hf] at hfirst
+        cases rf with
+        | sig t => simp at hfirst
+        | each => simp at hfirst
+        | anything =>
+          simp only [Bool.and_eq_true] at hfirst
+          obtain ⟨hany, hcar⟩ := hfirst
+          subst hany
+          have hin := fun t => (carries_sound x.c x.E x.emits e sel eb hcar t).trans (hhb t)
+          unfold Cond.eval quantVal
+          rw [hf, rhs_plain cd _ _ _ hplain, hsec, hop]
+          simp only [if_true]
+          exact any_support_congr _ _ hin (fun v => cmp op v (x.av rhs))
+        | everything =>
+          simp only [Bool.and_eq_true, Bool.not_eq_true'] at hfirst
+          obtain ⟨hany, hcar⟩ := hfirst
+          subst hany
+          have hin := fun t => (carries_sound x.c x.E x.emits e sel eb hcar t).trans (hhb t)
+          unfold Cond.eval quantVal
+          rw [hf, rhs_plain cd _ _ _ hplain, hsec, hop]
+          simp only [Bool.false_eq_true, if_false]
+          exact all_support_congr _ _ hin (fun v => cmp op v (x.av rhs))
+    | _ => simp [hbb] at hfirst
+
+theorem gt_boolI (b : Bool) : cmp .gt (boolI b) 0 = b := by cases b <;> decide
+
+theorem gt_ite_one (b : Bool) : cmp .gt (if b = true then (1 : I32) else 0) 0 = b := by cases b <;> decide
+
+/-- **C06.** A placed entity whose circuit condition passes `enableIs` is enabled exactly when the value the
+program assigns to `.enable` is positive. -/
+theorem enable_sound (x : Ctx) (hall : ∀ m, m < x.nodes.size → Holds x.E x.nodes x.env x.bind m)
+    (i : Nat) (w : Arg) (h : enableIs x.c x.nodes x.bind i w = true) :
+    ∃ cd, x.c.kind i = .controlled (some cd) ∧
+      evalEnabled (some cd) (x.c.readR x.E i) (x.c.readG x.E i) = cmp .gt (x.av w) 0 := by
+  unfold enableIs at h
+  simp only [Bool.and_eq_true] at h
+  obtain ⟨hw, h⟩ := h
+  cases hk : x.c.kind i with
+  | controlled oc =>
+    rw [hk] at h
+    cases oc with
+    | none => simp at h
+    | some cd =>
+      refine ⟨cd, rfl, ?_⟩
+      simp only [evalEnabled]
+      simp only [Bool.or_eq_true] at h
+      rcases h with h | h
+      · simp only [Bool.and_eq_true, Bool.not_eq_true', beq_iff_eq] at h
+        obtain ⟨⟨⟨⟨hop, hplain⟩, hue⟩, hmo⟩, hsec⟩ := h
+        have hs : cd.second = .const 0 := by
+          cases hcs : cd.second with
+          | const k => rw [hcs] at hsec; simp at hsec; rw [hsec]; rfl
+          | ref _ _ => rw [hcs] at hsec; simp at hsec
+        rw [cond_eval_plain cd _ _ hplain hue, matchOperand_sound x i cd.first w x.nodes.size hw hall hmo, hop, hs]
+        rfl
+      · cases w with
+        | int k => simp at h
+        | node m =>
+          have hm : m < x.nodes.size := by simpa [argBelow] using hw
+          have hnd : x.nodes[m]? = some x.nodes[m] := Array.getElem?_eq_getElem hm
+          simp only [hnd] at h
+          have hallm : ∀ j, j < m → Holds x.E x.nodes x.env x.bind j := fun j hj => hall j (by omega)
+          cases hkm : x.nodes[m] with
+          | cmp op a b ty =>
+            rw [hkm] at h
+            simp only [Bool.and_eq_true, Bool.not_eq_true', beq_iff_eq] at h
+            obtain ⟨⟨⟨⟨⟨⟨ha, hb⟩, hop⟩, hplain⟩, hue⟩, h1⟩, h2⟩ := h
+            rw [cond_eval_plain cd _ _ hplain hue, matchOperand_sound x i cd.first a m ha hallm h1,
+              matchOperand_sound x i cd.second b m hb hallm h2, hop]
+            show _ = cmp .gt (nodeVal x.nodes x.env m) 0
+            rw [nodeVal_cmp x.nodes x.env m hm op a b ty hkm ha hb, gt_boolI]
+            rfl
+          | anyCmp bn op rhs out ty =>
+            rw [hkm] at h
+            cases out with
+            | some o => simp at h
+            | none =>
+              simp only at h
+              obtain ⟨hb, hrhs, hev⟩ := quantCond_sound x m (by omega) hallm true bn op rhs i cd h
+              rw [hev]
+              show _ = cmp .gt (nodeVal x.nodes x.env m) 0
+              rw [nodeVal_eq x.nodes x.env m hm ty (by rw [hkm]; rfl), hkm]
+              simp only [evalNode, get_single, if_pos rfl, quantVal, if_true, Ctx.av,
+                evalUpTo_prefix x.nodes x.env m bn hb (by omega), argVal_prefix x.nodes x.env m (by omega) rhs hrhs]
+              rw [gt_ite_one]
+          | allCmp bn op rhs out ty =>
+            rw [hkm] at h
+            cases out with
+            | some o => simp at h
+            | none =>
+              simp only at h
+              obtain ⟨hb, hrhs, hev⟩ := quantCond_sound x m (by omega) hallm false bn op rhs i cd h
+              rw [hev]
+              show _ = cmp .gt (nodeVal x.nodes x.env m) 0
+              rw [nodeVal_eq x.nodes x.env m hm ty (by rw [hkm]; rfl), hkm]
+              simp only [evalNode, get_single, if_pos rfl, quantVal, Bool.false_eq_true, if_false, Ctx.av,
+                evalUpTo_prefix x.nodes x.env m bn hb (by omega), argVal_prefix x.nodes x.env m (by omega) rhs hrhs]
+              simp only [if_true]
+              rw [gt_ite_one]
+          | lnot a ty =>
+            rw [hkm] at h
+            simp only [Bool.and_eq_true, Bool.not_eq_true', beq_iff_eq] at h
+            obtain ⟨⟨⟨⟨⟨ha, hop⟩, hplain⟩, hue⟩, h1⟩, hsec⟩ := h
+            have hs : cd.second = .const 0 := by
+              cases hcs : cd.second with
+              | const k => rw [hcs] at hsec; simp at hsec; rw [hsec]; rfl
+              | ref _ _ => rw [hcs] at hsec; simp at hsec
+            rw [cond_eval_plain cd _ _ hplain hue, matchOperand_sound x i cd.first a m ha hallm h1, hop, hs]
+            show _ = cmp .gt (nodeVal x.nodes x.env m) 0
+            rw [nodeVal_lnot x.nodes x.env m hm a ty hkm ha, gt_boolI]
+            simp [cmp, Operand.val, Ctx.av]
+          | _ => rw [hkm] at h; simp at h
+  | _ => rw [hk] at h; simp at h
+
+/-- **C06, per program**: from tick `T` on, for every input valuation and all container contents -/
+theorem enable_end_to_end (c : Circuit) (nodes : Array CNode) (bind : Nat → Option Bind) (rank : Nat → Nat)
+    (hrank : c.checkRanked rank = true) (hall : checkAll c nodes bind = true)
+    (inp : Inputs) (env : Env) (hinp : InputsOK c inp) (hagree : InputsAgree nodes bind inp env)
+    (T : Nat) (hT : ∀ i, rank i < T) (t : Nat) (ht : T ≤ t)
+    (i : Nat) (w : Arg) (hen : enableIs c nodes bind i w = true) :
+    ∃ cd, c.kind i = .controlled (some cd) ∧
+      evalEnabled (some cd) (c.readR (c.runF inp t) i) (c.readG (c.runF inp t) i) =
+        cmp .gt (argVal nodes (evalNodes nodes env) w) 0 := by
+  have hr := Circuit.checkRanked_sound c rank hrank
+  let x := settledCtx c nodes bind rank hrank inp env hinp hagree T hT
+  obtain ⟨cd, hk, hv⟩ := enable_sound x (checkAll_sound x hall) i w hen
+  refine ⟨cd, hk, ?_⟩
+  have : c.runF inp t = c.runF inp T := funext (Circuit.settled_stable c inp rank hr T hT t ht)
+  rw [this]
+  exact hv
 
 /-! ## what the user sees: the anchor wired to a named result (C20) -/
 
